@@ -144,21 +144,23 @@ def q (B : Nat) (r : FRepr) : Rat := r.toRat B
 def ctxMax (a b : Nat) : Nat := if a > b then a else b
 
 /-- check of the arithmetic contract for a model result; `x` exact value -/
-def contractWhy (B : Nat) (m : Mode) (p : Nat) (x : Rat) (xRepresentable : Bool) (r : Rounded FRepr) : Option String :=
+def contractWhy (B : Nat) (m : Mode) (p : Nat) (x : Rat) (xRepresentable : Bool) (r : Rounded FRepr)
+    (tight : Bool := false) : Option String :=
   if p = 0 then
     (if r.2 = none ∧ q B r.1 = x then none else some "unlimited-precision-inexact")
   else if !contractOk B m p x (q B r.1) r.2 then some "contract"
   else if xRepresentable ∧ q B r.1 ≠ x then some "representable-not-exact"
   else if r.1.digits B > p + 1 then some "more-than-p+1-digits"
+  else if tight ∧ r.1.digits B > p then some "more-than-p-digits"
   else none
 
 /-- `fallback = true` (Context methods on operands longer than the working length, for which no
     repair is proposed): when the mirrored result violates the contract, the correctly rounded
     `p`-digit value is printed as the required result instead. -/
 def chkContract (asIs : Bool) (B : Nat) (m : Mode) (p : Nat) (x : Rat) (xRepresentable : Bool)
-    (r : Rounded FRepr) (s : String) (fallback : Bool := false) : String :=
+    (r : Rounded FRepr) (s : String) (fallback : Bool := false) (tight : Bool := false) : String :=
   if asIs then s
-  else match contractWhy B m p x xRepresentable r with
+  else match contractWhy B m p x xRepresentable r tight with
     | none => s
     | some why =>
       if fallback ∧ p ≠ 0 then ok (roundedStr (specRound B m p x) p) else mism s why
@@ -189,21 +191,21 @@ def binArith (asIs : Bool) (ctxForm : Bool) (op : String) (a b : FArg) (p : Nat)
     let ex := q B x + (rs : Rat) * q B y
     let rep := representable B p (FRepr.new B (x.signif * ((B ^ (x.exp - min x.exp y.exp).toNat : Nat) : Int)
         + rs * y.signif * ((B ^ (y.exp - min x.exp y.exp).toNat : Nat) : Int)) (min x.exp y.exp))
-    pure (chkContract asIs B m p ex rep r (ok (roundedStr r p)) (ctxForm ∧ (x.digits B > p ∨ y.digits B > p)))
+    pure (chkContract asIs B m p ex rep r (ok (roundedStr r p)) (x.digits B > p ∨ y.digits B > p))
   | "mul" =>
     let r := ctxMul fixed B m coarseNone p x y
     let r2 := opMul B m coarseNone p x y
     let s := ok (roundedStr r p)
     let s := if !ctxForm ∧ r ≠ r2 then s ++ " !model-forms-disagree" else s
     let rep := representable B p (FRepr.new B (x.signif * y.signif) (x.exp + y.exp))
-    pure (chkContract asIs B m p (q B x * q B y) rep r s)
+    pure (chkContract asIs B m p (q B x * q B y) rep r s false true)
   | "div" =>
     match ctxDiv B m coarseNone dub (dlbF32 B) p x y with
     | .error k => pure (Dashu.Driver.panic k.name)
     | .ok r =>
       let ex := q B x / q B y
       pure (chkContract asIs B m p ex (isRepresentableQ B p ex) r (ok (roundedStr r p))
-        (ctxForm ∧ x.digits B > y.digits B + p))
+        (x.digits B > y.digits B + p))
   | _ => none
 
 def unArith (asIs : Bool) (ctxForm : Bool) (op : String) (a : FArg) (p : Nat) : Option String := do
@@ -216,11 +218,11 @@ def unArith (asIs : Bool) (ctxForm : Bool) (op : String) (a : FArg) (p : Nat) : 
   | "sqr" =>
     let r := ctxSqr fixed B m coarseNone p x
     let rep := representable B p (FRepr.new B (x.signif * x.signif) (2 * x.exp))
-    pure (chkContract asIs B m p (q B x * q B x) rep r (ok (roundedStr r p)))
+    pure (chkContract asIs B m p (q B x * q B x) rep r (ok (roundedStr r p)) false true)
   | "cubic" =>
     let r := ctxCubic fixed B m coarseNone p x
     let rep := representable B p (FRepr.new B (x.signif * x.signif * x.signif) (3 * x.exp))
-    pure (chkContract asIs B m p (q B x * q B x * q B x) rep r (ok (roundedStr r p)))
+    pure (chkContract asIs B m p (q B x * q B x * q B x) rep r (ok (roundedStr r p)) false true)
   | "inv" =>
     match ctxInv B m p x with
     | .error k => pure (Dashu.Driver.panic k.name)
@@ -234,7 +236,7 @@ def unArith (asIs : Bool) (ctxForm : Bool) (op : String) (a : FArg) (p : Nat) : 
       let s := ok (roundedStr r p)
       if asIs then pure s
       else if !contractSqrtOk B m p (q B x) (q B r.1) r.2 then pure (mism s "contract-sqrt")
-      else if r.1.digits B > p + 1 then pure (mism s "more-than-p+1-digits")
+      else if r.1.digits B > p then pure (mism s "more-than-p-digits")
       else pure s
   | _ => none
 
@@ -367,7 +369,7 @@ def dispatchCore (asIs : Bool) : Dispatch := fun _W op args =>
     let B := fa.base
     let r := fWithPrecision B fa.mode coarseNone x p
     let s := ok (fbigStr r.1 ++ " " ++ flagStr r.2)
-    pure (chkContract asIs B fa.mode p (q B x.repr) (representable B p x.repr) (r.1.repr, r.2) s)
+    pure (chkContract asIs B fa.mode p (q B x.repr) (representable B p x.repr) (r.1.repr, r.2) s false true)
   -- ---------------------------------------------------------------- C03
   | "dbg.addbranch", [a, b, ps, rss] => do
     let fa ← parseF a; let fb ← parseF b; let p ← parseDecNat ps; let rs ← parseDec rss
